@@ -11,6 +11,15 @@ package dig
 // ---------------------------------------------------------------------------
 // scope tree walks (C08)
 
+// Ghost: the chain of enclosing scopes of s, nearest first: s.anc[0] == s,
+// s.anc[i+1] == s.anc[i].parentScope, s.anc[s.nanc-1] is the root.
+//@ ghost field Scope.anc mmap[int]*Scope
+//@ ghost field Scope.nanc int
+//@ typeinv[scope-ancestors] (s *Scope) s.nanc >= 1 && s.anc[0] == s
+//@   && (forall i int :: 0 <= i && i < s.nanc ==> s.anc[i] != nil)
+//@   && (forall i int :: 0 <= i && i + 1 < s.nanc ==> s.anc[i+1] == s.anc[i].parentScope)
+//@   && s.anc[s.nanc-1].parentScope == nil
+
 //@ func (s *Scope) rootScope() (r)
 //@   requires s != nil
 //@   ensures[C08:root-has-no-parent] r != nil && r.parentScope == nil
@@ -18,17 +27,13 @@ package dig
 //@   loop for curr.parentScope != nil #1: invariant[C08:root-walk] curr != nil && (s.parentScope == nil ==> curr == s)
 
 //@ func (s0 *Scope) ancestors() (r)
-//@   ensures[C08:walk-starts-here] s0 != nil ==> len(r) >= 1 && r[0] == s0
+//@   allocates
 //@   ensures[C08:walk-nil] s0 == nil ==> len(r) == 0
-//@   ensures[C08:walk-follows-parent] forall i int :: 0 <= i && i+1 < len(r) ==> r[i+1] == r[i].parentScope
-//@   ensures[C08:walk-ends-at-root] len(r) >= 1 ==> r[len(r)-1].parentScope == nil
-//@   ensures[C08:walk-non-nil] forall i int :: 0 <= i && i < len(r) ==> r[i] != nil
+//@   ensures[C08:walk-is-the-ancestor-chain] s0 != nil ==> len(r) == s0.nanc && (forall i int :: 0 <= i && i < len(r) ==> r[i] == s0.anc[i])
 //@   ensures[C08:walk-fresh] cap(r) == 0 || fresh(r)
-//@   loop for s != nil #1: invariant[C08:walk-inv-head] len(scopes) == 0 ==> s == s0
-//@   loop for s != nil #1: invariant[C08:walk-inv-first] len(scopes) >= 1 ==> scopes[0] == s0 && s0 != nil
-//@   loop for s != nil #1: invariant[C08:walk-inv-next] len(scopes) >= 1 ==> s == scopes[len(scopes)-1].parentScope
-//@   loop for s != nil #1: invariant[C08:walk-inv-chain] forall i int :: 0 <= i && i+1 < len(scopes) ==> scopes[i+1] == scopes[i].parentScope
-//@   loop for s != nil #1: invariant[C08:walk-inv-non-nil] forall i int :: 0 <= i && i < len(scopes) ==> scopes[i] != nil
+//@   loop for s != nil #1: invariant[C08:walk-inv-len] s0 != nil ==> len(scopes) <= s0.nanc && (len(scopes) < s0.nanc ==> s == s0.anc[len(scopes)]) && (len(scopes) == s0.nanc ==> s == nil)
+//@   loop for s != nil #1: invariant[C08:walk-inv-nil] s0 == nil ==> s == nil && len(scopes) == 0
+//@   loop for s != nil #1: invariant[C08:walk-inv-prefix] forall i int :: 0 <= i && i < len(scopes) ==> scopes[i] == s0.anc[i]
 //@   loop for s != nil #1: invariant[C08:walk-inv-fresh] cap(scopes) == 0 || fresh(scopes)
 
 // ---------------------------------------------------------------------------
@@ -44,6 +49,9 @@ package dig
 //@ typeinv[scope-wf] (s *Scope) s.providers != nil && s.decorators != nil && s.values != nil && s.decoratedValues != nil
 //@   && s.groups != nil && s.decoratedGroups != nil && s.gh != nil && s.rand != nil
 //@   && isInvoker(s.invokerFn) && s.clockSrc != nil
+
+//@ typeinv[scope-registrations-nonnil] (s *Scope) (forall k key :: k in s.decorators ==> s.decorators[k] != nil)
+//@   && (forall k key, i int :: 0 <= i && i < len(s.providers[k]) ==> s.providers[k][i] != nil)
 
 //@ pure func noNestedLists(rl resultList) Bool = forall j int :: 0 <= j && j < len(rl.Results) ==> !is(rl.Results[j], resultList)
 //@ pure func wfParamList(pl paramList) Bool =
@@ -267,3 +275,113 @@ package dig
 
 // a reflected interface value holds a non-nil error
 //@ pure func isErrorValue(x Any) Bool = isA(x, error)
+
+// ---------------------------------------------------------------------------
+// lookups (C01, C04, C08, C12)
+
+//@ pure func vkey(t RType, name Str) key = mk(key, t, name, "")
+//@ pure func gkey(t RType, group Str) key = mk(key, t, "", group)
+//@ pure func isScope(c Any) Bool = is(c, ptr(Scope)) && as(c, ptr(Scope)) != nil
+//@ pure func scopeOf(c Any) *Scope = as(c, ptr(Scope))
+
+//@ func (s *Scope) storesToRoot() (r)
+//@   requires s != nil
+//@   allocates
+//@   ensures[C08:stores-are-the-ancestor-chain] len(r) == s.nanc && (forall i int :: 0 <= i && i < len(r) ==> isScope(r[i]) && scopeOf(r[i]) == s.anc[i])
+//@   ensures fresh(r)
+//@   loop range scopes #1: invariant[C08:stores-copy] forall j int :: 0 <= j && j < $i ==> isScope(stores[j]) && scopeOf(stores[j]) == s.anc[j]
+//@   loop range scopes #1: invariant len(stores) == s.nanc && fresh(stores) && len(scopes) == s.nanc && (forall j int :: 0 <= j && j < len(scopes) ==> scopes[j] == s.anc[j])
+//@   loop range scopes #1: modifies elems(containerStore)
+
+//@ func (ps paramSingle) getDecoratedValue(c) (v, ok)
+//@   requires isScope(c)
+//@   allocates
+//@   let k = vkey(ps.Type, ps.Name)
+//@   let S = scopeOf(c)
+//@   ensures[C12:nearest-decorated-value] ok ==> exists j int :: 0 <= j && j < S.nanc
+//@        && (forall i int :: 0 <= i && i < j ==> !(k in S.anc[i].decoratedValues))
+//@        && k in S.anc[j].decoratedValues && v == S.anc[j].decoratedValues[k]
+//@   ensures[C12:no-decorated-value-anywhere] !ok ==> (forall i int :: 0 <= i && i < S.nanc ==> !(k in S.anc[i].decoratedValues))
+//@   loop range c.storesToRoot() #1: invariant[C12:decorated-nearest-first] forall i int :: 0 <= i && i < $i ==> !(k in S.anc[i].decoratedValues)
+
+//@ pure func decApplicable(s *Scope, k key) Bool = k in s.decorators && s.decorators[k] != nil && s.decorators[k].state != decoratorOnStack
+
+//@ func (ps paramSingle) buildWithDecorators(c) (v, found, err)
+//@   requires isScope(c)
+//@   modifies @knot
+//@   allocates
+//@   maypanic
+//@   let k = vkey(ps.Type, ps.Name)
+//@   let S = scopeOf(c)
+//@   loop range stores #1: invariant[C12:loop-exhausted-means-none] !found || d == nil
+//@   loop range stores #1: invariant[C12:decorators-nearest-first] forall i int :: 0 <= i && i < $i ==> !decApplicable(S.anc[i], k)
+//@   site call (dig.decorator).Call #1: assert[C12:nearest-decorator-in-its-own-scope] exists j int :: 0 <= j && j < S.nanc
+//@        && (forall i int :: 0 <= i && i < j ==> !decApplicable(S.anc[i], k))
+//@        && decApplicable(S.anc[j], k) && $recv == S.anc[j].decorators[k] && isScope($arg0) && scopeOf($arg0) == S.anc[j]
+//@   ensures[C12:not-found-means-none-applicable] !found ==> v == nil && err == nil && unchangedAll() && $nrun == old($nrun) && $ev == old($ev)
+//@        && (forall i int :: 0 <= i && i < S.nanc ==> !decApplicable(S.anc[i], k))
+//@   ensures[C12:decorated-value-from-decorating-scope] found && err == nil ==> isScope(argOf(Call_1, 0))
+//@        && v == (k in scopeOf(argOf(Call_1, 0)).decoratedValues ? scopeOf(argOf(Call_1, 0)).decoratedValues[k] : nil)
+//@   ensures[C13:decorator-error-wrapped] found && err != nil ==> v == nil && is(err, errParamSingleFailed)
+//@        && as(err, errParamSingleFailed).Reason == ret(Call_1, 0) && as(err, errParamSingleFailed).Key == k
+
+//@ ufunc chainHasMissingDeps(Any) Bool
+
+//@ func errors.As(err, target) (ok)
+//@   trusted
+//@   requires[errors.As-target-non-nil] target != nil
+//@   modifies errMissingDependencies.Func, errMissingDependencies.Reason, cell(Error), errCycleDetected.Path, errCycleDetected.scope
+//@   ensures is(target, ptr(errMissingDependencies)) ==> ok == chainHasMissingDeps(err)
+//@        && onlyAt(as(target, ptr(errMissingDependencies)), errMissingDependencies.Func, errMissingDependencies.Reason)
+//@        && unchanged(cell(Error), errCycleDetected.Path, errCycleDetected.scope)
+//@   ensures is(target, ptr(Error)) ==> onlyAt(as(target, ptr(Error)), cell(Error))
+//@        && unchanged(errMissingDependencies.Func, errMissingDependencies.Reason, errCycleDetected.Path, errCycleDetected.scope)
+//@   ensures is(target, ptr(errCycleDetected)) ==> onlyAt(as(target, ptr(errCycleDetected)), errCycleDetected.Path, errCycleDetected.scope)
+//@        && unchanged(errMissingDependencies.Func, errMissingDependencies.Reason, cell(Error))
+
+//@ func (ps paramSingle) Build(c) (v, err)
+//@   requires isScope(c) && ps.Type != nil
+//@   modifies @knot
+//@   allocates
+//@   maypanic
+//@   let k = vkey(ps.Type, ps.Name)
+//@   let S = scopeOf(c)
+//@   let decFound = ret(buildWithDecorators_1, 1)
+//@   let none = forall i int :: 0 <= i && i < S.nanc ==> at(storesToRoot_1, !(k in S.anc[i].values) && len(S.anc[i].providers[k]) == 0)
+//@   loop range c.storesToRoot() #1: invariant[C08:nearest-first] forall j int :: 0 <= j && j < $i ==> !(k in S.anc[j].values) && len(S.anc[j].providers[k]) == 0
+//@   loop range c.storesToRoot() #1: invariant[C08:no-providers-yet] len(providers) == 0
+//@   ensures[C12:decorator-result-wins] decFound ==> v == ret(buildWithDecorators_1, 0) && err == ret(buildWithDecorators_1, 2)
+//@   ensures[C12:decorated-value-beats-provided] !decFound && ret(getDecoratedValue_1, 1) ==> v == ret(getDecoratedValue_1, 0) && err == nil
+//@        && sameSince(getDecoratedValue_1, @knot)
+//@   ensures[C04:required-missing] reached(storesToRoot_1) && none && !ps.Optional ==> is(err, errMissingTypes) && v == nil && sameSince(storesToRoot_1, @knot)
+//@   ensures[C04:optional-zero-when-absent] reached(storesToRoot_1) && none && ps.Optional ==> err == nil && v == zeroV(ps.Type) && sameSince(storesToRoot_1, @knot)
+//@   ensures[C01:nearest-cache-or-provider,C09:nearest-cache-or-provider] reached(storesToRoot_1) && !none && err == nil && !reached(Zero_2) ==> exists j int :: 0 <= j && j < S.nanc
+//@        && (forall i int :: 0 <= i && i < j ==> at(storesToRoot_1, !(k in S.anc[i].values) && len(S.anc[i].providers[k]) == 0))
+//@        && at(storesToRoot_1, k in S.anc[j].values || len(S.anc[j].providers[k]) > 0)
+//@        && v == (k in S.anc[j].values ? S.anc[j].values[k] : nil)
+//@   ensures[C02:cached-value-runs-nothing] reached(storesToRoot_1) && (exists j int :: 0 <= j && j < S.nanc
+//@        && (forall i int :: 0 <= i && i < j ==> at(storesToRoot_1, !(k in S.anc[i].values) && len(S.anc[i].providers[k]) == 0))
+//@        && at(storesToRoot_1, k in S.anc[j].values)) ==> err == nil && sameSince(storesToRoot_1, @knot)
+//@   ensures[C04:zero-only-for-optional] reached(Zero_1) || reached(Zero_2) ==> ps.Optional
+//@   ensures[C04:optional-hides-only-missing-deps] reached(Zero_2) ==> chainHasMissingDeps(ret(Call_1, 0))
+//@   ensures[C13:provider-error-wrapped] reached(Call_1) && err != nil ==> is(err, errParamSingleFailed) && v == nil
+//@        && as(err, errParamSingleFailed).Reason == ret(Call_1, 0) && as(err, errParamSingleFailed).Key == k
+//@        && is(recvOf(Call_1), ptr(constructorNode)) && as(err, errParamSingleFailed).CtorID == as(recvOf(Call_1), ptr(constructorNode)).id
+//@   ensures[C04:provider-error-not-hidden] reached(Call_1) && ret(Call_1, 0) != nil && !(ps.Optional && chainHasMissingDeps(ret(Call_1, 0))) ==> err != nil
+//@   site call (dig.provider).Call #1: assert[C08:provider-sees-its-own-scope,C01:provider-sees-its-own-scope] is($recv, ptr(constructorNode)) && isScope($arg0) && scopeOf($arg0) == as($recv, ptr(constructorNode)).origS
+//@   site call (dig.provider).Call #1: assert[C03:provider-is-registered-for-the-key] exists j int, idx int :: 0 <= j && j < S.nanc && 0 <= idx
+//@        && idx < len(at(storesToRoot_1, S.anc[j].providers[k])) && $recv == at(storesToRoot_1, S.anc[j].providers[k][idx])
+
+//@ func newErrMissingTypes(c, k) (e)
+//@   trusted
+//@   requires c != nil && k.t != nil
+//@   allocates
+//@   ensures[C04:missing-type-names-the-key] len(e) == 1 && e[0].Key == k && fresh(e)
+
+//@ func (s *Scope) getProviders(k) (r)
+//@   requires s != nil
+//@   allocates
+//@   ensures[C09:providers-of-exactly-this-key] len(r) == len(s.providers[k]) && (forall i int :: 0 <= i && i < len(r) ==> r[i] == s.providers[k][i])
+//@   ensures fresh(r) || len(r) == 0
+//@   loop range nodes #1: invariant[C09:providers-copied] forall j int :: 0 <= j && j < $i ==> providers[j] == s.providers[k][j]
+//@   loop range nodes #1: invariant len(providers) == len(s.providers[k]) && fresh(providers) && nodes == s.providers[k]
